@@ -587,7 +587,21 @@ def decode_request(data):
 
 def decode_response(data):
     m = messages.ResponseMessage()
-    m.read(utils.BytearrayStream(data))
+    try:
+        m.read(utils.BytearrayStream(data))
+    except TypeError:
+        # The library's reader cannot cope with a header that states a protocol version it does not know (the server
+        # echoes an unsupported request version in its refusal): read the same message as if it stated 1.0.
+        b = bytearray(data)
+        if len(b) >= 56 and b[24:28] == b"\x42\x00\x6a\x02" and b[40:44] == b"\x42\x00\x6b\x02":
+            real = (int.from_bytes(b[32:36], "big"), int.from_bytes(b[48:52], "big"))
+            b[32:36] = (1).to_bytes(4, "big")
+            b[48:52] = (0).to_bytes(4, "big")
+            m = messages.ResponseMessage()
+            m.read(utils.BytearrayStream(bytes(b)))
+            m.response_header.protocol_version = contents.ProtocolVersion(real[0], real[1])
+        else:
+            raise
     return m
 
 
